@@ -79,6 +79,12 @@ class FD:
             return wrap(v, t)
         if op == 'un':
             o = e['o']
+            if o == '*':
+                # a load through a pointer: known only when the caller bound this very expression
+                k_ = 'deref:' + show(strip_casts(e['k'][0]))
+                if k_ in env:
+                    return wrap(env[k_], t)
+                raise Top()
             if o in ('-', '~', '!', '+'):
                 v = self.ev(fn, e['k'][0], env, depth)
                 r = {'-': -v, '~': ~v, '!': 0 if v else 1, '+': v}[o]
@@ -407,7 +413,13 @@ def trace_calls(P, fn, env0, max_steps=20000, _depth=0, assume_calls=None, parti
                 try:
                     if ev.e is None:
                         raise Top()
-                    env[ev.name] = wrap(fd.ev(fn, ev.e, env), ev.t)
+                    try:
+                        env[ev.name] = wrap(fd.ev(fn, ev.e, env), ev.t)
+                    except Top:
+                        # calls inside a larger expression take their assumed results
+                        if assume_calls is None or strip_casts(ev.e).get('op') == 'call':
+                            raise
+                        env[ev.name] = wrap(fd.ev(fn, _subst_calls(ev.e, assume_calls), env), ev.t)
                 except (Top, ZeroDivisionError):
                     env.pop(ev.name, None)
                     sym.pop(ev.name, None)
@@ -454,6 +466,9 @@ def trace_calls(P, fn, env0, max_steps=20000, _depth=0, assume_calls=None, parti
                                 env[name] = rv_
                             elif isinstance(rv_, tuple):
                                 sym[name] = rv_
+                        elif rhs is not None and strip_casts(rhs).get('op') == 'call' and assume_calls is not None and \
+                                _assumed(assume_calls, strip_casts(rhs).get('callee')) is not None:
+                            env[name] = _assumed(assume_calls, strip_casts(rhs).get('callee'))
             elif ev.k == 'call':
                 g = P.functions.get(ev.callee) if P is not None else None
                 if g is not None and g.file == fn.file and g is not fn and _depth < 3 and g.name not in no_inline:
